@@ -335,6 +335,7 @@ class FullMetalBarrageComponent(
 
     @reducer_method
     def elapse(self, time: float, state: FullMetalBarrageState):
+        state = state.deepcopy()
         state.penalty_lasting.elapse(time)
         state, event = self.elapse_keydown_trait(time, state)
 
